@@ -122,6 +122,8 @@ class Interp:
         install(self)
         install_structural(self)
         self.rewrites = []
+        self.define_fuel = 2
+        self.defined_apps = set()
         self.node_by_term = {}
         self.tracked = []
         self.empty_dict_symbolic = False
@@ -194,6 +196,11 @@ class Interp:
                     out = Outcome("exc", e.exc, self.pcs[base_pcs:])
                 except Infeasible:
                     out = None
+                except Exception as e:  # noqa: BLE001
+                    if type(e).__name__ == "LoopCut":
+                        out = None
+                    else:
+                        raise
                 if out is not None:
                     out.effects = list(self.effects[base_eff:])
                     out.extra["writes"] = list(self.writes[base_writes:])
@@ -824,6 +831,27 @@ class Interp:
         if op in ("eq", "ne", "lt", "le", "gt", "ge"):
             return SymBool({"eq": a == b, "ne": a != b, "lt": a < b, "le": a <= b,
                             "gt": a > b, "ge": a >= b}[op])
+        if op == "and" and z3.is_int_value(b) and b.as_long() == 1:
+            return SymInt(a % 2)
+        if op == "and" and z3.is_int_value(a) and a.as_long() == 1:
+            return SymInt(b % 2)
+        if op in ("and", "or", "xor"):
+            t = fn(f"int_{op}", Int, Int, Int)(a, b)
+            return SymInt(t)
+        if op == "pow":
+            if z3.is_int_value(b) and 0 <= b.as_long() <= 4:
+                r = z3.IntVal(1)
+                for _ in range(b.as_long()):
+                    r = r * a
+                return SymInt(r)
+            return None
+        if op == "truediv":
+            return None
+        if op in ("lshift", "rshift"):
+            if z3.is_int_value(b) and 0 <= b.as_long() <= 62:
+                k = 2 ** b.as_long()
+                return SymInt(a * k) if op == "lshift" else self.int_binop("floordiv", a, z3.IntVal(k))
+            return None
         return None
 
     def unop(self, op, a):
@@ -1144,7 +1172,10 @@ class Interp:
         return Conc(node.value)
 
     def e_Name(self, node, env):
-        return env.lookup(node.id)
+        v = env.lookup(node.id)
+        if type(v).__name__ == "Poison":
+            raise Unsupported(f"loop reads variable {node.id} whose entry value could not be generalised")
+        return v
 
     def e_Attribute(self, node, env):
         return self.getattr_val(self.eval(node.value, env), node.attr, node)
@@ -1866,6 +1897,9 @@ class Interp:
             if star is not None or dstar is not None:
                 raise Unsupported("star args to node constructor")
             return self.construct_node(cls, args, kwargs, node)
+        if cls.__module__.startswith("pymbolic") and inspect.getattr_static(cls, "__init__", None) is object.__init__ \
+                and inspect.getattr_static(cls, "__new__") is object.__new__ and not args and not kwargs:
+            return SymObj(cls, {}, z3.Const(self.fresh_name(node, f"new_{cls.__name__}"), V))
         if cls.__module__.startswith("pymbolic") and isinstance(inspect.getattr_static(cls, "__init__", None), types.FunctionType) \
                 and inspect.getattr_static(cls, "__new__") is object.__new__:
             obj = SymObj(cls, {}, z3.Const(self.fresh_name(node, f"new_{cls.__name__}"), V))
@@ -1970,6 +2004,10 @@ class Interp:
             if dstar is not None:
                 if not self.decide(z3.Length(dstar.keys) == 0):
                     raise PyRaise(SymExc(TypeError, (), origin=f"unexpected **kw to {name}"))
+        tfc = getattr(self, "top_frame_contract", None)
+        if tfc is not None and tfc[1] is not None:
+            self.contracts[tfc[0]] = tfc[1]        # inside the top frame, recursive calls see the contract again
+            self.top_frame_contract = None
         fenv = Env(local, env, globals_)
         fenv.func_owner = owner
         fenv.func_self = args[0] if args else None
